@@ -521,8 +521,10 @@ class Gen:
 
     def sec_default(self):
         r = self.r
+        self.has_defaults = False
         if self.o.get("nodefaults") or r.random() < 0.2:
             return
+        self.has_defaults = True
         self.open("default")
         self.default_body(0)
         self.close("default")
@@ -1193,7 +1195,7 @@ class Gen:
                 self.limits(a, en, "ctrlrange", "ctrllimited")
             self.limits(a, en, "forcerange", "forcelimited", lo=(-20, -0.1), hi=(0.1, 20))
             musc = en == "muscle" or a.get("gaintype") == "muscle" or a.get("biastype") == "muscle" or a.get("dyntype") == "muscle" or bool(a.get("class")) or bool(self.classes)
-            if (r.random() < 0.2 or musc) and "lengthrange" in names:
+            if (r.random() < 0.2 or musc or self.has_defaults) and "lengthrange" in names:
                 a["lengthrange"] = self.v2s([self.num(-1, -0.01), self.num(0.1, 2)])
             if "gear" in names and "gear" not in a and r.random() < 0.4:
                 a["gear"] = self.v2s(self.vec(r.randint(1, 6), -3, 3))
